@@ -529,8 +529,6 @@ Proof.
     intros s2 s2' H2. apply sim_ok. split; [exact H2 | reflexivity].
 Qed.
 
-Definition ns_ok (d : bool) := True.
-
 Lemma flow_non_spaces_f_sim d : forall f1 f2 s s' ch, (f1 <= f2)%nat -> R s s' ->
   sim R1 (flow_non_spaces_f f1 s d ch) (flow_non_spaces_f f2 s' d ch).
 Proof.
